@@ -29,6 +29,21 @@ def install(reg):
         h = z3.simplify(hi.v).as_long()
         return SV(BOOL, And(Not(s.none), z3.InRe(s.v, z3.Loop(z3.Range("0", "9"), l, h))))
 
+    @reg.spec("py_strip")
+    def _py_strip(e, st, s, chars):
+        return bm.str_strip(e, st, s.v, "strip", chars.tag[1])
+
+    @reg.spec("py_rstrip")
+    def _py_rstrip(e, st, s, chars):
+        return bm.str_strip(e, st, s.v, "rstrip", chars.tag[1])
+
+    @reg.spec("py_last")
+    def _py_last(e, st, s, chars):
+        """len(s.rstrip(chars))"""
+        FN, LN = bm.strip_fns(chars.tag[1])
+        bm.str_strip(e, st, s.v, "rstrip", chars.tag[1])
+        return SV(INT, LN(s.v))
+
     @reg.spec("truthy")
     def _truthy(e, st, v):
         return SV(BOOL, e.truthy(st, v))
